@@ -30,37 +30,42 @@ func CheckConstructor(
 	filesToCheck := config.FilterFiles(pass)
 
 	for file := range filesToCheck {
-		currentFunction := ""
+		for _, decl := range file.Decls {
+			// The enclosing function is tracked per top-level declaration: code at
+			// package level (e.g. `var x = T{}`) is outside of every function, also
+			// when it follows a constructor in the file.
+			currentFunction := ""
 
-		ast.Inspect(file, func(n ast.Node) bool {
-			switch node := n.(type) {
-			case *ast.FuncDecl:
-				currentFunction = node.Name.Name
-				return true
+			ast.Inspect(decl, func(n ast.Node) bool {
+				switch node := n.(type) {
+				case *ast.FuncDecl:
+					currentFunction = node.Name.Name
+					return true
 
-			case *ast.CompositeLit:
-				v := checkCompositeLiteral(pass, node, constructors, currentFunction)
-				if v != nil {
-					violations = append(violations, *v)
+				case *ast.CompositeLit:
+					v := checkCompositeLiteral(pass, node, constructors, currentFunction)
+					if v != nil {
+						violations = append(violations, *v)
+					}
+					return true
+
+				case *ast.CallExpr:
+					v := checkNewCall(pass, node, constructors, currentFunction)
+					if v != nil {
+						violations = append(violations, *v)
+					}
+					return true
+
+				case *ast.GenDecl:
+					if node.Tok == token.VAR {
+						vs := checkVarDeclaration(pass, node, constructors, currentFunction)
+						violations = append(violations, vs...)
+					}
+					return true
 				}
 				return true
-
-			case *ast.CallExpr:
-				v := checkNewCall(pass, node, constructors, currentFunction)
-				if v != nil {
-					violations = append(violations, *v)
-				}
-				return true
-
-			case *ast.GenDecl:
-				if node.Tok == token.VAR {
-					vs := checkVarDeclaration(pass, node, constructors, currentFunction)
-					violations = append(violations, vs...)
-				}
-				return true
-			}
-			return true
-		})
+			})
+		}
 	}
 
 	return violations
